@@ -15,7 +15,11 @@ fn keys(rng: &mut Rng, i: usize, prof: &str) -> (Vec<u8>, Vec<u8>) {
 }
 fn new_three(rng: &mut Rng, i: usize, prof: &str) -> Vec<Op> {
     let (mk, ms) = keys(rng, i, prof);
-    (0..3).map(|_| Op::New(prof.into(), mk.clone(), ms.clone(), mk.clone(), ms.clone())).collect()
+    // the two directions use different keying material (sender.tx = receivers.rx ≠ sender.rx = receivers.tx)
+    let (bk, bs) = (mk.iter().map(|x| x ^ 0x5a).collect::<Vec<u8>>(), ms.iter().map(|x| x ^ 0xa5).collect::<Vec<u8>>());
+    vec![Op::New(prof.into(), mk.clone(), ms.clone(), bk.clone(), bs.clone()),
+         Op::New(prof.into(), bk.clone(), bs.clone(), mk.clone(), ms.clone()),
+         Op::New(prof.into(), bk, bs, mk, ms)]
 }
 
 fn mut_kind(m: &Mut) -> &'static str {
@@ -44,12 +48,14 @@ struct Case { ops: Vec<Op>, kind: &'static str }
 /// on unprotect ops, so they are computed on a scratch sender.)
 fn sanitize(ops: Vec<Op>) -> Vec<Op> {
     let mut w = World::new(false);
-    for op in &ops { if matches!(op, Op::New(..) | Op::ProtectRtp(..) | Op::ProtectRtcp(..)) { w.exec(op, false); } }
+    for op in &ops { if matches!(op, Op::New(..) | Op::ProtectRtp(..) | Op::ProtectRtcp(..) | Op::ExtRtp(..) | Op::ExtRaw(..) | Op::ExtRtcp(..)) { w.exec(op, false); } }
     let all = w.slots.clone();
+    let kinds = w.slot_rtcp.clone();
     ops.into_iter().filter(|op| match op {
         Op::UnprotectRtp(_, Src::Mutated(k, m)) | Op::UnprotectRtcp(_, Src::Mutated(k, m)) => {
+            let rtcp = matches!(op, Op::UnprotectRtcp(..));
             let b = m.apply(&all[*k]);
-            !all.iter().any(|g| g[..] == b[..])
+            !all.iter().zip(kinds.iter()).any(|(g, kd)| g[..] == b[..] && *kd == rtcp)
         }
         _ => true,
     }).collect()
@@ -66,7 +72,20 @@ fn emit(run: &mut Run, stream: &str, c: &Case) {
     // genuine ops come in pairs (A then B) on the same source; remember A's answer
     let mut pending: Option<(Src, bool, Res)> = None;
     for (i, op) in c.ops.iter().enumerate() {
+        let before = match op { Op::UnprotectRtp(s, _) | Op::UnprotectRtcp(s, _) => Some((w.sess[*s].verif_rx_snapshot(), w.sess[*s].verif_tx_snapshot())), _ => None };
         let r = w.exec(op, false);
+        // PROPERTY (2'), evaluated directly: an operation that returned an error changed NOTHING in the session
+        if let (Some((rx0, tx0)), Op::UnprotectRtp(s, src) | Op::UnprotectRtcp(s, src)) = (before, op) {
+            if !r.is_ok() {
+                let (rx1, tx1) = (w.sess[*s].verif_rx_snapshot(), w.sess[*s].verif_tx_snapshot());
+                if rx0 != rx1 || tx0 != tx1 {
+                    let kind = match src { Src::Mutated(_, m) => mut_kind(m), Src::Lit(_) => "literal", Src::Slot(_) => "authentic" };
+                    run.fail(&format!("state-changed-by-rejected:{}:{}:{kind}", if matches!(op, Op::UnprotectRtcp(..)) { "rtcp" } else { "rtp" }, w.prof[*s]),
+                        &case, &format!("op {i}: {} → {} ; rx {:?} → {:?}", op.text(), r.text(), rx0, rx1));
+                }
+                run.count("rejections_checked_state_unchanged");
+            }
+        }
         let (sess, src, is_rtcp) = match op {
             Op::UnprotectRtp(s, src) => (*s, Some(src.clone()), false),
             Op::UnprotectRtcp(s, src) => (*s, Some(src.clone()), true),
@@ -75,10 +94,10 @@ fn emit(run: &mut Run, stream: &str, c: &Case) {
         if let Some(src) = src {
             let prof = w.prof[sess].clone();
             let bytes = w.input(&src);
-            let genuine = w.slots.iter().any(|g| !g.is_empty() && g[..] == bytes[..]);
+            let genuine = w.slots.iter().zip(w.slot_rtcp.iter()).any(|(g, k)| !g.is_empty() && g[..] == bytes[..] && *k == is_rtcp);
             let what = if is_rtcp { "rtcp" } else { "rtp" };
             if !genuine {
-                let kind = match &src { Src::Mutated(_, m) => mut_kind(m), _ => "literal" };
+                let kind = match &src { Src::Mutated(_, m) => mut_kind(m), Src::Slot(_) => "cross-protocol", _ => "literal" };
                 last_forged = kind;
                 run.count(&format!("forged:{what}:{prof}:{kind}"));
                 if let Src::Mutated(k, Mut::Flip(bit)) = &src {
@@ -106,20 +125,28 @@ fn emit(run: &mut Run, stream: &str, c: &Case) {
         }
         if let (Op::Snap(s), Res::Snap(rx, _)) = (op, &r) {
             if *s == B {
-                // PROPERTY (3): receiver state. `rtcp_index` of a receive context is write-only (never read
-                // for a decision) and GCM bumps it before authentication — compared for the other profiles.
+                // PROPERTY (3): receiver cryptographic state — every field, every profile
                 if let Some(Res::Snap(arx, _)) = res.iter().rev().find(|x| matches!(x, Res::Snap(..))) {
-                    let strip = |v: &Vec<(u32, u32, Option<u16>, u32)>, idx: bool| v.iter().map(|(a, b, c, d)| (*a, *b, *c, if idx { *d } else { 0 })).collect::<Vec<_>>();
-                    let gcm = w.prof[B] == "gcm";
-                    if strip(arx, false) != strip(rx, false) {
+                    let strip = |v: &Vec<(u32, u32, Option<u16>, u32)>| v.iter().map(|(a, b, c, _)| (*a, *b, *c)).collect::<Vec<_>>();
+                    if strip(arx) != strip(rx) {
                         run.fail(&format!("state-differs:{}:rollover-or-table:after-{last_forged}", w.prof[B]), &case, &format!("A {:?} / B {:?}", arx, rx));
-                    } else if !gcm && strip(arx, true) != strip(rx, true) {
+                    } else if arx != rx {
                         run.fail(&format!("state-differs:{}:srtcp-index:after-{last_forged}", w.prof[B]), &case, &format!("A {:?} / B {:?}", arx, rx));
-                    } else if gcm && strip(arx, true) != strip(rx, true) { run.count("gcm_rtcp_index_bumped_by_forgery(non-observable)"); }
+                    }
                 }
             }
         }
         res.push(r);
+    }
+    // the A/B comparison means nothing if the receivers accept no genuine traffic at all (e.g. wrong keys):
+    // every case delivers its first genuine packets in order, so B must have accepted something
+    let b_genuine = c.ops.iter().filter(|o| matches!(o, Op::UnprotectRtp(s, Src::Slot(_)) | Op::UnprotectRtcp(s, Src::Slot(_)) if *s == B)).count();
+    let b_accepted = c.ops.iter().zip(res.iter()).filter(|(o, r)| matches!(o, Op::UnprotectRtp(s, _) | Op::UnprotectRtcp(s, _) if *s == B) && r.is_ok()).count();
+    run.count_n(&format!("clean_receiver_genuine_deliveries:{}", w.prof[B]), b_genuine as u64);
+    run.count_n(&format!("clean_receiver_accepted:{}", w.prof[B]), b_accepted as u64);
+    if b_genuine > 0 && b_accepted == 0 && c.kind == "exhaustive-bitflip-truncation" {
+        // these cases deliver the stream's first packets in order: nothing accepted means the receivers cannot decode genuine traffic at all
+        run.fail(&format!("genuine-traffic-never-accepted:{}", w.prof[B]), &case, &format!("{b_genuine} genuine deliveries to the clean receiver, none accepted"));
     }
     let nontrivial = res.iter().any(|r| matches!(r, Res::Rtp(_) | Res::Rtcp(_))) && res.iter().any(|r| matches!(r, Res::Err(e) if *e != "ok"));
     run.case(stream, &input, &results_text(&res), nontrivial);
@@ -157,7 +184,14 @@ fn exhaustive_mutations(run: &mut Run, rng: &mut Rng, prof: &str, i: usize, plen
         let mut r2 = Rng::new(1000 + i as u64 + plen as u64);   // same packets in every chunk of this (prof, i, plen)
         for n in 0..3u16 {
             if rtcp { ops.push(Op::ProtectRtcp(S, Src::Lit(rtcp_packet(&mut r2, ssrc, 8 + plen / 4 * 4)))); }
-            else { ops.push(Op::ProtectRtp(S, rich_packet(&mut r2, 65534u16.wrapping_add(n), ssrc, plen))); }
+            else {
+                // CSRC + one-byte-header extension + padding in EVERY profile, every tier
+                let mut sp = rich_packet(&mut r2, 65534u16.wrapping_add(n), ssrc, plen);
+                sp.csrcs = vec![0x0c0c_0c0c];
+                sp.ext = Some((0xbede, vec![0x10, 0xaa, 0, 0]));
+                sp.pad = 4;
+                ops.push(Op::ProtectRtp(S, sp));
+            }
         }
         ops
     };
@@ -312,6 +346,32 @@ fn refresh_attack(run: &mut Run, rng: &mut Rng, prof: &str, i: usize, via_rtcp: 
     emit(run, "evict", &Case { ops, kind: "keep-alive-by-forged-packets" });
 }
 
+/// (a) a protected RTCP packet handed to `unprotect_rtp` and a protected RTP packet handed to
+/// `unprotect_rtcp` are forgeries; (b) AUTHENTIC packets (valid tag, made by an independent sender
+/// holding the keys) whose clear P bit disagrees with the decrypted padding are rejected after
+/// authentication — that rejection, too, must leave every field of the receiver alone.
+fn cross_and_padding(run: &mut Run, rng: &mut Rng, prof: &str, i: usize) {
+    let mut ops = new_three(rng, i, prof);
+    let ssrc = 0x0d0d_0001u32;
+    let mut slot = 0;
+    for seq in [65534u16, 65535, 0] { ops.push(Op::ProtectRtp(S, PktSpec::simple(seq, ssrc, vec![seq as u8, 1, 2, 3]))); both(&mut ops, false, slot); slot += 1; }
+    ops.push(Op::ProtectRtcp(S, Src::Lit(rtcp_packet(rng, ssrc, 28)))); both(&mut ops, true, slot); let rtcp_slot = slot; slot += 1;
+    // (a) wrong protocol, A only
+    ops.push(Op::UnprotectRtp(A, Src::Slot(rtcp_slot)));
+    ops.push(Op::UnprotectRtcp(A, Src::Slot(0)));
+    // (b) authentic, inconsistent padding: P bit set and last byte 0 / larger than the body / empty body
+    for (seq, body) in [(1u16, vec![9u8, 9, 9, 0]), (2, vec![9, 9, 200]), (3, vec![]), (40000, vec![1, 2, 5])] {
+        let mut plain = vec![0xa0, 96];
+        plain.extend(seq.to_be_bytes()); plain.extend(7u32.to_be_bytes()); plain.extend(ssrc.to_be_bytes());
+        plain.extend(&body);
+        ops.push(Op::ExtRaw(S, 1, plain)); both(&mut ops, false, slot); slot += 1;
+    }
+    // the genuine stream goes on
+    for seq in [4u16, 5] { ops.push(Op::ProtectRtp(S, PktSpec::simple(seq, ssrc, vec![seq as u8]))); both(&mut ops, false, slot); slot += 1; }
+    ops.push(Op::Snap(A)); ops.push(Op::Snap(B));
+    emit(run, "forge", &Case { ops, kind: "cross-protocol-and-authentic-bad-padding" });
+}
+
 /// the eviction rule itself on genuine SSRC churn (model correspondence of the table logic)
 fn churn(rng: &mut Rng, i: usize, prof: &str) -> Case {
     let mut ops = new_three(rng, i, prof);
@@ -346,7 +406,7 @@ pub fn run(args: &Args) {
     let t = args.tier_thorough;
     for (pi, prof) in PROFILES.iter().enumerate() {
         // every bit, every truncation
-        let sizes: &[usize] = if t { &[0, 1, 16, 33, 100, 300] } else { &[9] };
+        let sizes: &[usize] = if t { &[0, 1, 16, 33, 100, 300] } else { &[0, 9] };
         for &plen in sizes {
             exhaustive_mutations(&mut run, &mut rng, prof, pi, plen, false);
             exhaustive_mutations(&mut run, &mut rng, prof, pi, plen, true);
@@ -359,6 +419,7 @@ pub fn run(args: &Args) {
         }
         refresh_attack(&mut run, &mut rng, prof, pi, false);
         refresh_attack(&mut run, &mut rng, prof, pi, true);
+        cross_and_padding(&mut run, &mut rng, prof, pi);
     }
     let ni = if t { 30000 } else { 600 };
     for i in 0..ni { let c = interleaved(&mut rng, i, PROFILES[i % 4]); emit(&mut run, "forge", &c); }
